@@ -126,4 +126,57 @@ def serverAcceptsWithTicket (m : Mode) (sess : Option Bool) (chainOKnow : Bool) 
     if serverResumes m sessHasCert then serverAccepts m ⟨sessHasCert, chainOKnow, true⟩ else serverAccepts m o
   | none => serverAccepts m o
 
+/-! ## Verification hooks of `Config`
+
+`VerifyPeerCertificate` and `VerifyConnection` are considered AFTER normal verification ("if normal verification fails
+then the handshake will abort before considering this callback"): they can only add restrictions.  The structural hooks
+(`GetCertificate`, `GetConfigForClient`, `GetClientCertificate`) select the certificate / configuration and have no
+decision of their own: a hook that returns what the static configuration holds leaves every decision unchanged, so they
+do not appear here. -/
+
+/-- a verification callback: not installed, installed and returning nil, installed and returning an error -/
+inductive Hook | absent | permit | reject
+  deriving Repr, DecidableEq
+
+def Hook.allows : Hook → Bool
+  | .reject => false
+  | _ => true
+
+def Hook.installed : Hook → Bool
+  | .absent => false
+  | _ => true
+
+/-- `verifyServerCertificate` with the callbacks: the chain error aborts first (unless InsecureSkipVerify), then
+    `VerifyPeerCertificate`, then `VerifyConnection`; then the possession proof as before -/
+def clientAcceptsH (vpc vc : Hook) (skip : Bool) (kex : Kex) (c : ServerCred) : Bool :=
+  if !skip && !c.chainOK then false
+  else if !vpc.allows then false
+  else if !vc.allows then false
+  else if !possession skip kex c then false
+  else c.sigIntact
+
+/-- is the client's `VerifyPeerCertificate` invoked (full handshake)? only when normal verification did not fail -/
+def clientVpcRuns (vpc : Hook) (skip : Bool) (c : ServerCred) : Bool :=
+  vpc.installed && (skip || c.chainOK)
+
+/-- … and `VerifyConnection` after it, unless `VerifyPeerCertificate` returned an error -/
+def clientVcRuns (vpc vc : Hook) (skip : Bool) (c : ServerCred) : Bool :=
+  vc.installed && (skip || c.chainOK) && vpc.allows
+
+/-- server side with the callbacks: `processCertsFromClient` ends with `VerifyPeerCertificate` (so it is considered only
+    when certificates are requested and the certificate checks passed); `VerifyConnection` follows in every mode, also
+    when nothing is requested; the CertificateVerify check comes last -/
+def serverAcceptsH (vpc vc : Hook) (m : Mode) (o : ClientOffer) : Bool :=
+  if m.toNat < 1 then vc.allows
+  else if !o.hasCert && requiresClientCert m then false
+  else if decide (m.toNat ≥ 3) && o.hasCert && !o.chainOK then false
+  else if !vpc.allows then false
+  else if !vc.allows then false
+  else if o.hasCert then o.cvValid
+  else true
+
+/-- `processCertsFromClient` reaches its callback: certificates requested and the certificate checks passed -/
+def serverCertChecksPass (m : Mode) (o : ClientOffer) : Bool :=
+  decide (m.toNat ≥ 1) && !(!o.hasCert && requiresClientCert m) && !(decide (m.toNat ≥ 3) && o.hasCert && !o.chainOK)
+
 end ZV.C27
